@@ -6,6 +6,7 @@ use ktio::{
 };
 use rayon::prelude::*;
 use scc::HashMap as SccMap;
+#[cfg(not(kmertools_verif))]
 use std::{
     cmp::{max, min},
     fs,
@@ -14,6 +15,17 @@ use std::{
         atomic::{AtomicU64, Ordering},
         Arc, Mutex,
     },
+};
+#[cfg(kmertools_verif)]
+use std::{
+    cmp::{max, min},
+    fs,
+    io::{BufRead, BufReader, BufWriter, Read, Write},
+};
+#[cfg(kmertools_verif)]
+use verif_rt::sync::{
+    atomic::{AtomicU64, Ordering},
+    Arc, Mutex,
 };
 
 // only to make code more readable
